@@ -563,7 +563,8 @@ theorem place_active (C : Shape) (g : V3 Int → α) (a b c : Nat) (tmpl : V3 In
 
 /-- `Motl.get_rotations`, `get_angles`, `get_coordinates` and `shift_positions`, every statement: the orientation is
 `from_euler("zxz", [phi, theta, psi], degrees=True)` of the angle columns as they are NOW (no cache, nothing between the table
-and the rotation), the complete position is `x + shift_x`, and `shift_coords` adds `orientation.apply(shift)` to the shift columns -/
+and the rotation), the complete position is `x + shift_x`, and `shift_coords` adds `orientation.apply(shift)` to the shift columns (of the row converted to floating point first, so that a table
+with integer-typed columns can take the rotated offset: the repair of the pandas-3 TypeError found in round 5; no other statement) -/
 theorem motl_bodies_documented :
     Gen.C14.motlRotationsBody =
       ["angles=self.get_angles(tomo_number)",
@@ -585,6 +586,7 @@ theorem motl_bodies_documented :
        "return coord"] ∧
     Gen.C14.motlShiftBody =
       ["def shift_coords(row):",
+       ">row=row.astype(float)",
        ">v=np.array(shift)",
        ">euler_angles=np.array([[row['phi'],row['theta'],row['psi']]])",
        ">orientations=rot.from_euler(seq='zxz',angles=euler_angles,degrees=True)",
